@@ -16,9 +16,22 @@ class C17(Prop):
             "src trees with only source paths, integer and float timestamps, >= 2 top-level variants without main variant): the real "
             "dumps() is parsed by an independent minimal INI reader (not configparser) and its [general] section is compared with "
             "(a) the property evaluated on the same file's [release]/[tree]/[variant-*] sections, (b) the property evaluated on the "
-            "input, (c) the model document; non-trivial = distinct inputs the library agreed to write")
+            "input, (c) the model document; op `legacy`: the written text is cut down to [general]/[stage2]/[checksums]/[images-*] by an "
+            "independent line filter and loaded by the library's no-header (0.0) reader - compared with the model reader on compatDoc of "
+            "the model text (and with legacyTree where the side conditions hold) and with what 'the same tree' requires, component by "
+            "component (formats/treeinfo_compat.py: family table, milestone versions, RHEL 5 Server/Client, kept-section arches, legacy "
+            "path shapes, absolute instimage, float timestamps below 1, integers beyond 2^53, dashed main variants); "
+            "non-trivial = distinct inputs the library agreed to write")
     assumptions = ["int(x) of a float timestamp is evaluated by CPython and carried in the float token (floats are never computed in Lean)"]
-    partial = {}
+    partial = {
+        "C17_legacy_reader_partial": "the last sentence of the property holds with side conditions (all decidable, necessity of the three substantial "
+                                     "ones decided and replayed on the real code): [general] variant without a dash (F45), int(build_timestamp) != 0 "
+                                     "(F44, inside the validity hypothesis) and exactly representable as a double (F17), tree arch not named like a "
+                                     "kept section, RHEL 5 addon table not applicable, instimage not absolute; what the reader then builds is "
+                                     "legacyTree - 'the same tree' up to the 0.0 reader's family table / milestone rule / platform list "
+                                     "(C17_legacy_same, C17_legacy_paths)",
+        "C17_legacy_reader_doc_partial": "as C17_legacy_reader_partial, on the written document instead of the bytes",
+    }
 
     def cases(self, rng, tier, budget):
         # every named class of the audit, round-robin (docs/audit_C17.md), integer and float timestamps alternating,
@@ -315,6 +328,11 @@ MANIFEST = dict(
               "and with the model document",
     text="C17_mirror: for every tree and every main_variant the model writer accepts, each [general] option of the written document "
          "equals the stated function of [release], [tree] and the section of the chosen variant (src fallbacks included); the chosen "
-         "variant is the requested one or the first container key in sorted order.",
+         "variant is the requested one or the first container key in sorted order.  C17_text: the same for the bytes dumps() returns, "
+         "read by the INI reader model.  C17_platforms_include_arch: [tree]/[general] platforms = sorted, duplicate-free list of the "
+         "platforms and the architecture.  C17_main_variant(+_refused), C17_default_main_variant: a requested main variant designates a "
+         "variant (top-level key; UID or dashed child path only for dashed names), an unknown one is refused with KeyError, the default "
+         "is the least container key.  C17_legacy_reader_partial (+C17_legacy_same, C17_legacy_paths, three decided witnesses): the "
+         "library's no-header reader on the compatibility sections of the written bytes yields legacyTree.",
     note="'first top-level variant' is first by container key, which for a dashed UID filed under its id differs from the UID order (F8).",
     ref="7/C17")
